@@ -208,7 +208,7 @@ PER_KEY = {'key', 'name', 'path', 'parent_id', 'new_key_id'}
 
 
 @PROP.obligation('C09.from-key-siblings', canaries=[
-    mut.replace_expr('wallets', 'Wallet.keys_for_path', 'encoding', 'self.encoding', 'bulk branch stores the wallet encoding', nth=2),
+    mut.replace_expr('wallets', 'Wallet.keys_for_path', 'encoding', 'self.encoding', 'bulk branch stores the wallet encoding', nth=3),
 ])
 def from_key_siblings(ctx):
     """Wallet.keys_for_path creates keys in two places (single key, bulk): both WalletKey.from_key calls pass the same expression for every
@@ -230,6 +230,59 @@ def from_key_siblings(ctx):
     for name in ('encoding', 'witness_type', 'purpose'):
         ctx.match(q, 'argument %s of WalletKey.from_key (the value computed for the requested witness type)' % name, first.get(name), name, None, calls[0],
                   'keys of another witness type are stored with the wallet default')
+
+
+@PROP.obligation('C09.derived-witness-type', canaries=[
+    mut.drop_stmt('wallets', 'Wallet.keys_for_path', 'parent_key.witness_type = witness_type', 'bulk branch derives from a key with the stored witness type'),
+    mut.drop_stmt('wallets', 'Wallet.keys_for_path', 'ck.witness_type = witness_type', 'single branch derives from a key with the stored witness type'),
+])
+def derived_witness_type(ctx):
+    """WalletKey.from_key takes the witness type from the HDKey it is given (`witness_type = k.witness_type`), not from its argument. So in
+    Wallet.keys_for_path every key passed to from_key must descend (subkey_for_path) from a root key `X = topkey.key()` whose witness_type
+    and encoding were set to the requested values - a root rebuilt from a stored extended key has the FIRST witness type its prefix is
+    listed for (litecoin Mtpv: p2sh-segwit before segwit)."""
+    fk = ctx.repo.func('wallets:WalletKey.from_key')
+    override = [n for n in ast.walk(fk) if isinstance(n, ast.Assign) and norm(n.targets[0]) == 'witness_type' and norm(n.value) == 'k.witness_type']
+    ctx.saw('WalletKey.from_key overrides its witness_type argument with the key\'s: %s' % bool(override))
+    if not override:
+        return
+    q = 'wallets:Wallet.keys_for_path'
+    fn = ctx.repo.func(q)
+    assigns = {}
+    for n in ast.walk(fn):
+        if isinstance(n, ast.Assign) and isinstance(n.targets[0], ast.Name):
+            assigns.setdefault(n.targets[0].id, []).append(n.value)
+    roots = [name for name, vals in assigns.items() if any(isinstance(v, ast.Call) and isinstance(v.func, ast.Attribute) and v.func.attr == 'key' and not v.args for v in vals)]
+    attrs = {}
+    for n in ast.walk(fn):
+        if isinstance(n, ast.Assign) and isinstance(n.targets[0], ast.Attribute) and isinstance(n.targets[0].value, ast.Name):
+            attrs.setdefault(n.targets[0].value.id, {})[n.targets[0].attr] = norm(n.value)
+    ctx.saw('root keys rebuilt from the database: %s ; attributes set on them: %s' % (sorted(roots), {r: attrs.get(r, {}) for r in sorted(roots)}))
+    calls = [c for c in ast.walk(fn) if isinstance(c, ast.Call) and unparse(c.func) == 'WalletKey.from_key']
+    ctx.floor(len(calls), 2, 'WalletKey.from_key calls in keys_for_path')
+    for c in calls:
+        kv = [k.value for k in c.keywords if k.arg == 'key']
+        if not kv or not isinstance(kv[0], ast.Name):
+            ctx.undecided('keys_for_path: key argument of WalletKey.from_key is not a plain name')
+        # walk back through `x = y.subkey_for_path(...)`
+        seen, todo, bases = set(), [kv[0].id], set()
+        while todo:
+            nm = todo.pop()
+            if nm in seen:
+                continue
+            seen.add(nm)
+            if nm in roots:
+                bases.add(nm)
+            for v in assigns.get(nm, []):
+                if isinstance(v, ast.Call) and isinstance(v.func, ast.Attribute) and v.func.attr == 'subkey_for_path' and isinstance(v.func.value, ast.Name):
+                    todo.append(v.func.value.id)
+        if not bases:
+            ctx.undecided('keys_for_path: the key given to WalletKey.from_key at line %d does not descend from a rebuilt root key' % c.lineno)
+        for r in sorted(bases):
+            got = attrs.get(r, {})
+            if got.get('witness_type') != 'witness_type' or got.get('encoding') != 'encoding':
+                ctx.violate(q, 'keys created at line %d descend from `%s = topkey.key()` whose witness_type / encoding are not set to the requested values (set: %s)' % (c.lineno, r, got or 'nothing'), c,
+                            'litecoin segwit wallet: get_keys(number_of_keys=3) stores the third key with witness_type p2sh-segwit')
 
 
 COLS = {'wallet_id': 'wallet_id', 'purpose': 'purpose', 'account_id': 'account_id', 'change': 'change', 'parent_id': 'parent_id', 'path': 'path', 'key_type': 'key_type',
